@@ -58,7 +58,10 @@ type VerifC36Params struct {
 	Seq []int
 	// Local call: 0 none; 1 global SendRequest, 2 SendRequest on O, 3 OpenChannel -- issued
 	// after the whole sequence was processed (barrier); 4,5,6 the same three issued
-	// concurrently with the sequence.
+	// concurrently with the sequence; 7 (channel) and 8 (global): a first request is in
+	// flight while the whole sequence arrives (the peer withholds its real answer until
+	// then), and a SECOND request is issued afterwards - its result must be the peer's
+	// real answer (failure), never a reply left over from the first request's time.
 	Local int
 }
 
@@ -71,6 +74,7 @@ type VerifC36Result struct {
 	OReqs          int // channel requests the application saw on O
 	GlobalReqs     int
 	NewChans       int
+	FirstDone      bool // modes 7/8: the first request returned
 	LocalDone      bool
 	LocalOK        bool
 	LocalErr       string
@@ -175,6 +179,7 @@ func VerifC36Run(p VerifC36Params) *VerifC36Result {
 	var wg sync.WaitGroup // everything that must end when the connection ends
 
 	setup := true
+	firstSeen := make(chan struct{}, 1)
 	var peerMu sync.Mutex // serialises the peer's writes with its bookkeeping of channels it closed
 	peerClosed := map[uint32]bool{}
 	pongs := make(chan string, 64)
@@ -209,7 +214,9 @@ func VerifC36Run(p VerifC36Params) *VerifC36Result {
 					desc = fmt.Sprintf("openFail:%d", x.PeersID)
 				case *channelRequestMsg:
 					desc = fmt.Sprintf("chanReq:%d", x.PeersID)
-					if x.WantReply {
+					if x.WantReply && x.Request == "first" {
+						firstSeen <- struct{}{} // answer withheld until the sequence has been sent
+					} else if x.WantReply {
 						peerMu.Lock()
 						if !peerClosed[x.PeersID] { // RFC 4254 5.3: nothing may follow the peer's own close
 							b.WritePacket(Marshal(channelRequestFailureMsg{PeersID: localOf[x.PeersID]}))
@@ -228,7 +235,9 @@ func VerifC36Run(p VerifC36Params) *VerifC36Result {
 					desc = fmt.Sprintf("adjust:%d", x.PeersID)
 				case *globalRequestMsg:
 					desc = "globalReq"
-					if x.WantReply {
+					if x.WantReply && x.Type == "first" {
+						firstSeen <- struct{}{}
+					} else if x.WantReply {
 						b.WritePacket(Marshal(globalRequestFailureMsg{Data: []byte("real")}))
 					}
 				case *globalRequestSuccessMsg:
@@ -349,9 +358,24 @@ func VerifC36Run(p VerifC36Params) *VerifC36Result {
 		}
 		mu.Unlock()
 	}
-	if p.Local >= 4 {
+	if p.Local >= 4 && p.Local <= 6 {
 		wg.Add(1)
 		go local()
+	}
+	if p.Local == 7 || p.Local == 8 {
+		wg.Add(1)
+		go func() {
+			defer wg.Done()
+			if p.Local == 7 {
+				O.SendRequest("first", true, nil)
+			} else {
+				m.SendRequest("first", true, nil)
+			}
+			mu.Lock()
+			res.FirstDone = true
+			mu.Unlock()
+		}()
+		<-firstSeen // the first request is on the wire and waiting for its reply
 	}
 	for _, k := range p.Seq {
 		peerMu.Lock()
@@ -366,6 +390,31 @@ func VerifC36Run(p VerifC36Params) *VerifC36Result {
 	if p.Local >= 1 && p.Local <= 3 {
 		wg.Add(1)
 		local() // sequential: every packet of the sequence has been processed
+	}
+	if p.Local == 7 || p.Local == 8 {
+		// now the peer's real answer to the first request (unless it closed the channel)
+		peerMu.Lock()
+		if p.Local == 7 && !peerClosed[100] {
+			b.WritePacket(Marshal(channelRequestFailureMsg{PeersID: O.localId}))
+		} else if p.Local == 8 {
+			b.WritePacket(Marshal(globalRequestFailureMsg{Data: []byte("real")}))
+		}
+		peerMu.Unlock()
+		barrier("first-answered")
+		verifWaitIdle()
+		var ok bool
+		var err error
+		if p.Local == 7 {
+			ok, err = O.SendRequest("second", true, nil)
+		} else {
+			ok, _, err = m.SendRequest("second", true, nil)
+		}
+		mu.Lock()
+		res.LocalDone, res.LocalOK = true, ok
+		if err != nil {
+			res.LocalErr = err.Error()
+		}
+		mu.Unlock()
 	}
 	b.Close() // the connection ends
 	if err := m.Wait(); err != nil && err != io.EOF {
